@@ -584,6 +584,11 @@ def E() -> Engine:
 def _ax_exp(eng, t, args, prev):
     (a,) = args
     out = [t > 0, t >= 1 + a, z3.Implies(a < 0, t < 1), z3.Implies(a > 0, t > 1), z3.Implies(a == 0, t == 1)]
+    out += _const_box(a, t, math.exp)
+    l2 = Fraction(-math.log(2))
+    hv = Fraction(math.exp(-math.log(2)))
+    out.append(z3.Implies(a == z3.RealVal(l2), z3.And(t >= z3.RealVal(hv - Fraction(1, 10**13)), t <= z3.RealVal(hv + Fraction(1, 10**13)))))
+    out.append(z3.Implies(a <= -27, t <= z3.RealVal(Fraction(2, 10**12))))
     # exp(ln DBL_MAX) > 1e308 and exp(-746) < 1e-323 (true facts about the real exponential)
     out.append(z3.Implies(a > z3.RealVal(EXPMAX), t > z3.RealVal(Fraction(10) ** 308)))
     out.append(z3.Implies(a < -746, t < z3.RealVal(Fraction(1, 10**323))))
@@ -606,9 +611,29 @@ def _ax_log(eng, t, args, prev):
     return out
 
 
+def _const_box(a, t, fn, rel=Fraction(1, 10**13)):
+    """For a constant argument: the true value within a relative 1e-13 (libm is far tighter)."""
+    s = z3.simplify(a)
+    if not z3.is_rational_value(s):
+        return []
+    try:
+        v = fn(float(Fraction(s.numerator_as_long(), s.denominator_as_long())))
+    except (OverflowError, ValueError):
+        return []
+    if v != v or v in (float("inf"), float("-inf")):
+        return []
+    f = Fraction(v)
+    eps = abs(f) * rel + Fraction(1, 10**320)
+    return [t >= z3.RealVal(f - eps), t <= z3.RealVal(f + eps)]
+
+
 def _ax_tanh(eng, t, args, prev):
     (a,) = args
-    out = [t > -1, t < 1, z3.Implies(a > 0, z3.And(t > 0, t < a)), z3.Implies(a < 0, z3.And(t < 0, t > a)), z3.Implies(a == 0, t == 0)]
+    c0 = Fraction(math.atanh(0.5))
+    half = Fraction(math.tanh(math.atanh(0.5)))
+    out = [z3.Implies(a == z3.RealVal(c0), z3.And(t >= z3.RealVal(half - Fraction(1, 10**13)), t <= z3.RealVal(half + Fraction(1, 10**13))))]
+    out += _const_box(a, t, math.tanh) + [z3.Implies(a >= 20, t >= 1 - z3.RealVal(Fraction(1, 10**15))), z3.Implies(a <= -20, t <= -1 + z3.RealVal(Fraction(1, 10**15)))]
+    out += [t > -1, t < 1, z3.Implies(a > 0, z3.And(t > 0, t < a)), z3.Implies(a < 0, z3.And(t < 0, t > a)), z3.Implies(a == 0, t == 0)]
     for pt, (pa,) in prev:
         out.append(z3.Implies(a < pa, t < pt))
         out.append(z3.Implies(pa < a, pt < t))
@@ -1038,6 +1063,9 @@ class SR:
 
     def __copy__(self):
         return self
+
+    def __bool__(self):
+        return bool(SB(self.e != 0))
 
     def __float__(self):
         s = z3.simplify(self.e)
